@@ -68,6 +68,7 @@ def _sites(tier):
         "assert [1, 2] == snapshot([1,\n        2,\n    ])", "assert DC(x=1) == snapshot(DC(x=1, y=0, z=[]))", "assert DC(x=1) == snapshot(DC(1))",
         "assert DC(x=2, y=3) == snapshot(DC(1, 3))", "assert (1, 2) == snapshot((1,))", "assert (1,) == snapshot((1, 2))",
         "assert [] == snapshot([1, 2])", "assert {} == snapshot({'a': 1})", "assert {'a': 1, 'b': 2} == snapshot({'b': 2})",
+        "assert {'a': 5, 'b': 1} == snapshot({'a': 0, 'b': 1, 'a': 2})", "assert {'a': 2, 'b': 1} == snapshot({'a': 0, 'b': 1+0, 'a': 2})", "assert {1: 'x'} == snapshot({1: 'i', True: 'b'})",
         "assert 1 == snapshot([1])", "assert [1] == snapshot(1)", "assert 'a' == snapshot(b'a')",
     )]
     sites += [{"st": s, "n": []} for s in (
